@@ -197,6 +197,9 @@ def run_tlc(module: str, cfg_text: str, *, workers: int = 16, timeout: int = 900
             m = re.match(r"^Error: Action property (\S+) is violated", line)
             if m:
                 res.violated = m.group(1)
+            m = re.match(r"^Error: Temporal property (\S+) was violated", line)
+            if m:
+                res.violated = m.group(1)
             if line.startswith("Error: Temporal properties were violated"):
                 res.violated = res.violated or "TemporalProperty"
             if line.startswith("Error:"):
@@ -412,3 +415,32 @@ def validate_trace(chk: "Check", module: str, lines: List[Dict[str, Any]], what:
         except OSError:
             pass
     return [list(x) for x in best["fails"]]
+
+
+def consts(d: Dict[str, Any]) -> "tuple[str, str]":
+    """cfg CONSTANTS section + wrapper-module definitions for a dict of TLA+ constant expressions.
+
+    Every constant is defined in the wrapper module (so negative numbers, empty tuples etc. are fine)
+    and substituted in the cfg with `<-`."""
+    cfg = "CONSTANTS\n" + "".join(f" {k} <- {k}_c\n" for k in d)
+    defs = "\n".join(f"{k}_c == {tla(v)}" for k, v in d.items())
+    return cfg, defs
+
+
+def tla(v: Any) -> str:
+    """Python value -> TLA+ expression (str values are taken as TLA+ source unless quoted by tla_str)."""
+    if isinstance(v, bool):
+        return "TRUE" if v else "FALSE"
+    if isinstance(v, (int,)):
+        return str(v)
+    if isinstance(v, str):
+        return v
+    if isinstance(v, (list, tuple)):
+        return "<<" + ", ".join(tla(x) for x in v) + ">>"
+    if isinstance(v, (set, frozenset)):
+        return "{" + ", ".join(tla(x) for x in sorted(v, key=str)) + "}"
+    raise MachineryError(f"cannot render {v!r} as TLA+")
+
+
+def q(s: str) -> str:
+    return '"' + s + '"'
